@@ -29,6 +29,10 @@ inductive Exc where
   | runtimeError
   /-- `concurrent.futures.TimeoutError` out of `shutdown_loop()` (`_utils/asyncio.py:121-131`) on a stopped loop (D34) -/
   | timeout
+  /-- `EventLoopBlocked` out of `run_coro_with_timeout` (`_utils/asyncio.py:100-118`): a sync close is waiting for a coroutine it
+  handed to the loop (`async_unregister_all_services`, `AsyncEngine._async_close`) and the loop has been stopped under it by
+  another close's `_shutdown_threads()` — the common form of finding D34 -/
+  | loopBlocked
   deriving DecidableEq, Repr
 
 /-- what can leave the host -/
@@ -72,6 +76,9 @@ inductive CStage where
   | unregistering (left : Nat)
   /-- (sync `close()`) `_close()` ran in the caller's thread, `engine.close()` not yet entered -/
   | doneSet
+  /-- (sync) `engine.close()` found the loop running and handed `_async_close()` to it (`run_coro_with_timeout`); the coroutine has
+  not run yet, the caller's thread is blocked on its result -/
+  | submitted
   /-- `_async_shutdown` done on the loop, suspended in `sleep(0)` -/
   | shutdown
   /-- (sync) `engine.close()` has returned, `_shutdown_threads()` not yet entered -/
@@ -93,6 +100,11 @@ structure Close where
 def Close.isReturned (c : Close) : Bool := match c.stage with | .returned => true | _ => false
 
 def Close.isStopping (c : Close) : Bool := match c.stage with | .stopping => true | _ => false
+
+/-- a sync close whose thread is blocked in `run_coro_with_timeout` on a coroutine running (or yet to run) on the loop: the goodbyes
+after the first, `_async_close()` -/
+def Close.waitsOnLoop (c : Close) : Bool :=
+  c.sync && (match c.stage with | .unregistering (_ + 1) | .submitted | .shutdown => true | _ => false)
 
 /-- a task suspended in `wait_for_future_set_or_timeout` (`Zeroconf.async_wait` between two probes, `ServiceInfo.async_wait` of a
 lookup): a future in the instance's set and a `call_later` handle that resolves it at the deadline -/
@@ -136,6 +148,11 @@ structure Host where
   loopRunning : Bool := true
   /-- tasks suspended in `wait_for_future_set_or_timeout` -/
   waits : List Wait := []
+  /-- `AsyncEngine._async_setup` has not finished: the endpoints are still being created (`running` is false, no transport exists) -/
+  startPending : Bool := false
+  /-- sockets opened by a start-up that completed **after** the instance was shut down: open, receiving, and closed by nobody
+  (finding R3-C17-a) -/
+  lateSockets : Bool := false
   deriving DecidableEq, Repr
 
 /-- API calls that need a running instance -/
@@ -202,6 +219,9 @@ inductive Block where
   | closeThreadsStop (i : Nat)
   /-- the task awaiting async close `i` is cancelled at the suspension point it is parked at -/
   | closeAbort (i : Nat)
+  /-- (sync close `i`) the safeguard timeout of `run_coro_with_timeout` expires: the coroutine the caller waits for sits on a loop
+  that no longer runs — `EventLoopBlocked` out of `close()` -/
+  | closeBlocked (i : Nat)
   /-- a task (a probing registration, a lookup) starts to wait: future into the set, timeout handle armed -/
   | waitStart
   /-- `async_notify_all()`: every future in the set is resolved, the set emptied — from a record update, and as the **last step of
@@ -336,8 +356,8 @@ def notifyOnFinished : List Out :=
 /-- `none`: the block is not enabled in this state (it cannot occur) -/
 def step (h : Host) : Block → Option (Host × List Out)
   | .recv sends queued defer updates deferAt answersAt =>
-    -- a closed transport delivers nothing
-    if h.transportsClosed then none
+    -- a closed transport delivers nothing (sockets opened after the shutdown do)
+    if h.transportsClosed && !h.lateSockets then none
     else some ({ h with outq := h.outq + queued,
                         tcs := match answersAt with
                           | some i => h.tcs.eraseIdx i
@@ -376,8 +396,16 @@ def step (h : Host) : Block → Option (Host × List Out)
     if h.lookups = 0 then none
     else some (if finished then { h with lookups := h.lookups - 1 } else h, gated h (List.replicate sends .send))
   | .startUp =>
-    -- (start-up completing *after* a shutdown would open sockets on a done instance: see notes, not modelled)
-    if h.running || h.done || h.transportsClosed then none else some ({ h with running := true }, [])
+    if h.startPending then
+      -- the instance was closed while its endpoints were being created -- sync `close()` does not wait for start-up at all,
+      -- `async_close()` for 1 s --: `_async_setup` goes on, opens the sockets and sets `running_event` unless it looks at `done`
+      -- (translated, optional: the repair of finding R3-C17-a)
+      if h.done then
+        if Gen.Shutdown.startup_closes_when_done h.done then some ({ h with startPending := false }, [])
+        else some ({ h with startPending := false, running := true, lateSockets := true }, [])
+      else if h.transportsClosed then none
+      else some ({ h with startPending := false, running := true }, [])
+    else if h.running || h.done || h.transportsClosed then none else some ({ h with running := true }, [])
   | .apiCall k =>
     if Gen.Shutdown.wait_for_start_raises h.done then some (h, [.raised .notRunning])
     else if !h.running then none   -- would wait for start-up first: not modelled
@@ -426,7 +454,10 @@ def step (h : Host) : Block → Option (Host × List Out)
     | _ => none
   | .closeGoodbye i =>
     match h.closes[i]? with
-    | some ⟨sync, .unregistering (k + 1)⟩ => some (h.setStage i sync (.unregistering k), gated h [.goodbye])
+    | some ⟨sync, .unregistering (k + 1)⟩ =>
+      -- (a sync close's goodbyes are a coroutine on the loop: it makes no step once the loop has been stopped)
+      if sync && !h.loopRunning then none
+      else some (h.setStage i sync (.unregistering k), gated h [.goodbye])
     | _ => none
   | .closeMarkDone i caller =>
     match h.closes[i]? with
@@ -452,16 +483,22 @@ def step (h : Host) : Block → Option (Host × List Out)
         some ({ h.setStage i true .engineClosed with
                  running := runningAfterShutdown h.running, transportsClosed := transportsAfterShutdown h.transportsClosed }, [])
       else if Gen.Shutdown.engine_close_skipped h.loopRunning then some (h.setStage i true .engineClosed, [])
-      else if Gen.Shutdown.engine_close_awaits_async_close then
-        some ({ h.setStage i true .shutdown with
-                 running := runningAfterShutdown h.running, transportsClosed := transportsAfterShutdown h.transportsClosed }, [])
+      -- `loop.is_running()` was true: `_async_close()` is handed to the loop and the caller blocks on it
+      else if Gen.Shutdown.engine_close_awaits_async_close then some (h.setStage i true .submitted, [])
       -- anything else it may start on the loop is not waited for: nothing is known to be closed or cancelled when `close()` goes on
       else some (h.setStage i true .engineClosed, [])
+    | some ⟨true, .submitted⟩ =>
+      -- the first step of `_async_close()` on the loop: `_async_shutdown()` — if the loop still runs
+      if !h.loopRunning then none
+      else some ({ h.setStage i true .shutdown with
+                    running := runningAfterShutdown h.running, transportsClosed := transportsAfterShutdown h.transportsClosed }, [])
     | _ => none
   | .closeFinish i =>
     match h.closes[i]? with
     | some ⟨false, .shutdown⟩ => some ({ h.setStage i false .returned with cleanupArmed := cleanupAfterClose h.cleanupArmed }, [])
-    | some ⟨true, .shutdown⟩ => some ({ h.setStage i true .engineClosed with cleanupArmed := cleanupAfterClose h.cleanupArmed }, [])
+    | some ⟨true, .shutdown⟩ =>
+      if !h.loopRunning then none
+      else some ({ h.setStage i true .engineClosed with cleanupArmed := cleanupAfterClose h.cleanupArmed }, [])
     | _ => none
   | .closeThreadsCheck i =>
     match h.closes[i]? with
@@ -482,6 +519,10 @@ def step (h : Host) : Block → Option (Host × List Out)
     | some ⟨false, .waitingStart⟩ | some ⟨false, .unregistering _⟩ | some ⟨false, .shutdown⟩ =>
       some (h.setStage i false .aborted, [.raised .cancelled])
     | _ => none
+  | .closeBlocked i =>
+    match h.closes[i]? with
+    | some c => if c.waitsOnLoop && !h.loopRunning then some (h.setStage i true .aborted, [.raised .loopBlocked]) else none
+    | none => none
   | .waitStart => some ({ h with waits := h.waits ++ [.pending] }, [])
   | .notifyAll =>
     -- pending futures are resolved; a future its own handle has already resolved is still in the set: the guard must leave it alone
@@ -524,7 +565,7 @@ shutdown has set `done` and closed the transports; one that is back from the eng
 close that had shut the instance** -/
 def WF (h : Host) : Prop :=
   (∀ c ∈ h.closes,
-    (c.stage = .doneSet → h.done = true) ∧
+    (c.stage = .doneSet ∨ c.stage = .submitted → h.done = true) ∧
     (c.stage = .shutdown → h.done = true ∧ h.transportsClosed = true) ∧
     (c.stage = .engineClosed ∨ c.stage = .stopping ∨ c.stage = .returned → Shut h)) ∧
   (h.loopRunning = false → Shut h)
@@ -545,6 +586,7 @@ instance (h : Host) : Decidable (ZcInv h) := by unfold ZcInv; infer_instance
 what keeps `shutdown_loop` from timing out.  Broken only by overlapping sync closes (finding D34). -/
 def LoopInv' (loopThread loopRunning : Bool) (closes : List Close) : Prop :=
   (loopThread = true → loopRunning = true) ∧
+  (∀ (i : Nat) (c : Close), closes[i]? = some c → c.waitsOnLoop = true → loopRunning = true) ∧
   (∀ (i : Nat) (c : Close), closes[i]? = some c → c.stage = .stopping → loopRunning = true) ∧
   (∀ (i j : Nat) (ci cj : Close), closes[i]? = some ci → closes[j]? = some cj → ci.stage = .stopping → cj.stage = .stopping → i = j)
 
@@ -554,12 +596,21 @@ def LoopInv (h : Host) : Prop := LoopInv' h.loopThread h.loopRunning h.closes
 test and `shutdown_loop()` -/
 def Block.overlapsStop (h : Host) : Block → Bool
   | .closeThreadsCheck _ => h.closes.any Close.isStopping
+  -- … or stops the loop while another sync close is blocked on a coroutine it handed to that loop (its goodbyes, `_async_close()`):
+  -- the form of D34 seen in practice (`EventLoopBlocked`)
+  | .closeThreadsStop _ => h.closes.any Close.waitsOnLoop
   | _ => false
 
 /-- the D30 class: `_close()` runs on the callback thread of a live browser of `Zeroconf.browsers` -/
 def Block.selfJoins (h : Host) : Block → Bool
   | .closeMarkDone _ c => !Gen.Shutdown.close_skipped h.done && selfJoin h c
   | _ => false
+
+/-- start-up had completed (or will notice the close): no socket is or will be opened behind the shutdown — the complement of
+finding R3-C17-a's class "closed while the endpoints were still being created" -/
+def NoLateStart (h : Host) : Prop := h.startPending = false ∧ h.lateSockets = false
+
+instance (h : Host) : Decidable (NoLateStart h) := by unfold NoLateStart; infer_instance
 
 /-- nothing is waiting in the queue of a thread-based browser -/
 def QueuesEmpty (h : Host) : Prop := ∀ b ∈ h.browsers, b.threaded = true → b.queued = 0
@@ -592,7 +643,8 @@ close reaching the point where it sets `done` -/
 def Block.mid : Block → Bool
   | .probeStep true => false
   | .closeShutdown _ | .closeMarkDone _ _ => false
-  | .closeWake i _ | .closeGoodbye i | .closeFinish i | .closeAbort i | .closeThreadsCheck i | .closeThreadsStop i => i != 0
+  | .closeThreadsStop _ => false   -- (another close stopping the loop: a sync close `0` would never get its goodbyes out — D34)
+  | .closeWake i _ | .closeGoodbye i | .closeFinish i | .closeAbort i | .closeThreadsCheck i | .closeBlocked i => i != 0
   | _ => true
 
 /-- interleavable around close `0`'s goodbyes: `mid`, and not a goodbye of any close -/
@@ -601,15 +653,16 @@ def Block.mid3 (b : Block) : Bool := b.mid && (match b with | .closeGoodbye _ =>
 /-- the close call a block is a step of -/
 def Block.closeIndex : Block → Option Nat
   | .closeWake i _ | .closeGoodbye i | .closeMarkDone i _ | .closeShutdown i | .closeFinish i | .closeAbort i
-  | .closeThreadsCheck i | .closeThreadsStop i => some i
+  | .closeThreadsCheck i | .closeThreadsStop i | .closeBlocked i => some i
   | _ => none
 
 /-- progress measure of one close call -/
 def Close.rank (c : Close) : Nat :=
   match c.stage with
-  | .waitingStart => 12
-  | .unregistering n => n + 6
-  | .doneSet => 5
+  | .waitingStart => 13
+  | .unregistering n => n + 7
+  | .doneSet => 6
+  | .submitted => 5
   | .shutdown => 4
   | .engineClosed => 3
   | .stopping => 2
@@ -618,13 +671,15 @@ def Close.rank (c : Close) : Nat :=
 /-- the block a close call performs next (a parked call is woken at the latest by its own timeout; a sync call is
 taken to come from a thread that is no browser's).  `none`: the call has ended — or the combination cannot arise (a
 sync close never parks, an async one never is in `doneSet` / `engineClosed` / `stopping`). -/
-def Close.next (c : Close) (k : Nat) : Option Block :=
+def Close.next (c : Close) (k : Nat) (loopRunning : Bool := true) : Option Block :=
+  if c.waitsOnLoop && !loopRunning then some (.closeBlocked k) else
   match c.sync, c.stage with
   | false, .waitingStart => some (.closeWake k true)
   | _, .unregistering (_ + 1) => some (.closeGoodbye k)
   | true, .unregistering 0 => some (.closeMarkDone k none)
   | false, .unregistering 0 => some (.closeShutdown k)
   | true, .doneSet => some (.closeShutdown k)
+  | true, .submitted => some (.closeShutdown k)
   | _, .shutdown => some (.closeFinish k)
   | true, .engineClosed => some (.closeThreadsCheck k)
   | true, .stopping => some (.closeThreadsStop k)
@@ -793,7 +848,7 @@ def SyncCall.entry (before : SyncSnap) : SyncCall → CStage × List Block
   | .unregister => (.aborted, [.closeCall true] ++ (if syncUnregisters before.loopRunning && before.registry != 0 then [.closeGoodbye 0, .closeGoodbye 0] else []))
   | .markDone c => (.unregistering 0, [.closeMarkDone 0 c])
   | .engineClose => (.doneSet, [.closeShutdown 0] ++
-      (if !Gen.Shutdown.engine_close_skipped before.loopRunning && Gen.Shutdown.engine_close_awaits_async_close then [.closeFinish 0] else []))
+      (if !Gen.Shutdown.engine_close_skipped before.loopRunning && Gen.Shutdown.engine_close_awaits_async_close then [.closeShutdown 0, .closeFinish 0] else []))
   | .threads => (.engineClosed, [.closeThreadsCheck 0] ++ (if Gen.Shutdown.shutdown_threads_skipped before.loopThread then [] else [.closeThreadsStop 0]))
 
 /-- judge one observed call: `goodbyes` datagrams with TTL-0 records transmitted inside it, `raised` what it raised -/
